@@ -24,6 +24,23 @@ type solverSpec struct {
 	args func(file string, timeoutS int, seed int) []string
 }
 
+// variants of the primary solver raced when the first attempt does not answer: a different seed or arithmetic core often
+// decides a query the default configuration loses itself in (all of them are sound provers; any "unsat" counts)
+var variants = []solverSpec{
+	{"z3-new/s1", func(f string, t int, seed int) []string {
+		return []string{"z3-new", fmt.Sprintf("-T:%d", t), fmt.Sprintf("smt.random_seed=%d", seed+17), fmt.Sprintf("sat.random_seed=%d", seed+17), f}
+	}},
+	{"z3-new/a2", func(f string, t int, seed int) []string {
+		return []string{"z3-new", fmt.Sprintf("-T:%d", t), "smt.arith.solver=2", fmt.Sprintf("smt.random_seed=%d", seed), f}
+	}},
+	{"z3-new/em", func(f string, t int, seed int) []string {
+		return []string{"z3-new", fmt.Sprintf("-T:%d", t), "smt.mbqi=false", fmt.Sprintf("smt.random_seed=%d", seed+5), f}
+	}},
+	{"z3-new/s2", func(f string, t int, seed int) []string {
+		return []string{"z3-new", fmt.Sprintf("-T:%d", t), "smt.arith.solver=6", fmt.Sprintf("smt.random_seed=%d", seed+101), f}
+	}},
+}
+
 var solvers = []solverSpec{
 	{"z3-new", func(f string, t int, seed int) []string {
 		return []string{"z3-new", fmt.Sprintf("-T:%d", t), fmt.Sprintf("smt.random_seed=%d", seed), fmt.Sprintf("sat.random_seed=%d", seed), f}
@@ -37,15 +54,27 @@ var solvers = []solverSpec{
 }
 
 func runSolver(sp solverSpec, file string, timeoutS int, seed int) SolveResult {
+	return runSolverCtx(context.Background(), sp, file, timeoutS, seed)
+}
+
+func runSolverCtx(parent context.Context, sp solverSpec, file string, timeoutS int, seed int) SolveResult {
 	args := sp.args(file, timeoutS, seed)
-	ctx, cancel := context.WithTimeout(context.Background(), time.Duration(timeoutS+5)*time.Second)
+	ctx, cancel := context.WithTimeout(parent, time.Duration(timeoutS+5)*time.Second)
 	defer cancel()
 	t0 := time.Now()
 	cmd := exec.CommandContext(ctx, args[0], args[1:]...)
 	out, _ := cmd.CombinedOutput()
 	el := time.Since(t0).Seconds()
 	text := string(out)
-	first := strings.TrimSpace(strings.SplitN(text, "\n", 2)[0])
+	first := ""
+	for _, ln := range strings.Split(text, "\n") {
+		ln = strings.TrimSpace(ln)
+		if ln == "" || strings.HasPrefix(ln, "WARNING") || strings.HasPrefix(ln, "(warning") {
+			continue
+		}
+		first = ln
+		break
+	}
 	r := SolveResult{Solver: sp.name, Time: el, Output: text, File: file}
 	switch {
 	case first == "unsat":
@@ -90,17 +119,24 @@ func discharge(file string, timeoutS int, seed int, all bool) (SolveResult, []So
 	if !all && (r.Verdict == "unsat" || r.Verdict == "sat") {
 		return r, tried
 	}
-	// race the others
+	// race the others (and variants of the primary); a definite answer stops the race unless every solver must answer
 	var wg sync.WaitGroup
-	res := make([]SolveResult, len(solvers)-1)
-	for i, sp := range solvers[1:] {
+	pool := append([]solverSpec{}, solvers[1:]...)
+	pool = append(pool, variants...)
+	res := make([]SolveResult, len(pool))
+	ctx, cancel := context.WithCancel(context.Background())
+	for i, sp := range pool {
 		wg.Add(1)
 		go func(i int, sp solverSpec) {
 			defer wg.Done()
-			res[i] = runSolver(sp, file, timeoutS, seed)
+			res[i] = runSolverCtx(ctx, sp, file, timeoutS, seed)
+			if !all && (res[i].Verdict == "unsat" || res[i].Verdict == "sat") && !strings.HasSuffix(sp.name, "/em") {
+				cancel()
+			}
 		}(i, sp)
 	}
 	wg.Wait()
+	cancel()
 	tried = append(tried, res...)
 	best := r
 	for _, x := range tried {
